@@ -112,15 +112,18 @@ Definition set_visibility (v : vis) (e : N) (visible : bool) : vis :=
         end
   | Whitelist l =>
       if visible then
-        match lookup e l with                         (* *list.entry(e).or_insert(JustAdded) *)
-        | None =>
-            mkVis (Whitelist (map_insert e WlJustAdded l))
-                  (set_insert e (v_added v)) (set_remove e (v_removed v))
-        | Some WlJustAdded =>
-            mkVis (Whitelist l) (set_insert e (v_added v)) (set_remove e (v_removed v))
-        | Some WlVisible =>
-            mkVis (Whitelist l) (v_added v) (set_remove e (v_removed v))
-        end
+        if set_mem e (v_removed v) then               (* if self.removed.remove(&entity) *)
+          mkVis (Whitelist (map_insert e WlVisible l)) (v_added v) (set_remove e (v_removed v))
+        else
+          match lookup e l with                       (* *list.entry(e).or_insert(JustAdded) *)
+          | None =>
+              mkVis (Whitelist (map_insert e WlJustAdded l))
+                    (set_insert e (v_added v)) (set_remove e (v_removed v))
+          | Some WlJustAdded =>
+              mkVis (Whitelist l) (set_insert e (v_added v)) (set_remove e (v_removed v))
+          | Some WlVisible =>
+              mkVis (Whitelist l) (v_added v) (set_remove e (v_removed v))
+          end
       else
         match lookup e l with
         | None => v                                   (* list.remove(..).is_none() => return *)
